@@ -126,3 +126,44 @@ Theorem C05_pst13_batch_accepts_when_all_groups_hold :
     gvzero (gvsub (gvsub (gvsub (pb_c a') (el (pb_g a') f0)) (el f0 (pb_gam a'))) (bw_sum betas 0 (pb_w a'))) = true.
 Proof. exact @pst_batch_complete. Qed.
 Print Assumptions C05_pst13_batch_accepts_when_all_groups_hold.
+
+(* Sonic's own batch verifier (one accumulate_elems per point group scaled by the group's randomizer, one check_elems): the
+   value it compares with zero is the randomizer-weighted sum (first weight 1) of the values the single-point check compares
+   with zero, group by group on the shared challenge tape; all-true query sets are accepted whatever the randomizers, one
+   false group with a non-zero randomizer is rejected *)
+From PC Require Import Schemes.Sonic Proofs.SonicBatchFacts.
+Theorem C05_sonic_group_residual_is_single_check :
+  forall (FO : FieldOps) vk cs z vs pf chal y rest,
+    s_resid vk cs z vs pf chal = Ok (Ok y, rest) -> s_check vk cs z vs pf chal = Ok (feqb y f0, rest).
+Proof. exact @s_check_is_resid. Qed.
+Print Assumptions C05_sonic_group_residual_is_single_check.
+
+Theorem C05_sonic_batch_is_weighted_sum :
+  forall (FO : FieldOps) (FL : FieldLaws FO) vk cs qs ev pfs chal vtape rs rest,
+    length pfs = length (group_queries qs) ->
+    s_group_resids vk (s_comm_map cs) (evals_map ev) (group_queries qs) pfs chal = Ok (rs, rest) ->
+    (length rs <= length vtape)%nat ->
+    s_batch_check vk cs qs ev pfs chal vtape = Ok (feqb (SonicBatchFacts.wsum (f1 :: vtape) rs) f0, rest, length rs).
+Proof. exact @sonic_batch_is_weighted_sum. Qed.
+Print Assumptions C05_sonic_batch_is_weighted_sum.
+
+Theorem C05_sonic_batch_all_true_accepts :
+  forall (FO : FieldOps) (FL : FieldLaws FO) vk cs qs ev pfs chal vtape rs rest,
+    length pfs = length (group_queries qs) ->
+    s_group_resids vk (s_comm_map cs) (evals_map ev) (group_queries qs) pfs chal = Ok (rs, rest) ->
+    (length rs <= length vtape)%nat ->
+    Forall (fun r => feqb r f0 = true) rs ->
+    s_batch_check vk cs qs ev pfs chal vtape = Ok (true, rest, length rs).
+Proof. exact @sonic_batch_all_true. Qed.
+Print Assumptions C05_sonic_batch_all_true_accepts.
+
+Theorem C05_sonic_batch_one_false_rejects :
+  forall (FO : FieldOps) (FL : FieldLaws FO) vk cs qs ev pfs chal vtape pre r post rest,
+    length pfs = length (group_queries qs) ->
+    s_group_resids vk (s_comm_map cs) (evals_map ev) (group_queries qs) pfs chal = Ok (pre ++ r :: post, rest) ->
+    (length (pre ++ r :: post) <= length vtape)%nat ->
+    Forall (fun x => feqb x f0 = true) pre -> Forall (fun x => feqb x f0 = true) post -> feqb r f0 = false ->
+    nth (length pre) (f1 :: vtape) f0 <> f0 ->
+    s_batch_check vk cs qs ev pfs chal vtape = Ok (false, rest, length (pre ++ r :: post)).
+Proof. exact @sonic_batch_one_false. Qed.
+Print Assumptions C05_sonic_batch_one_false_rejects.
